@@ -30,7 +30,12 @@ RULE = ("one case = (problem class, data fixture, construction mode [direct | fa
         "triple x a cyclic walk through every weight form (None, scalar, array over the weight alphabet); non-trivial = at least two "
         "candidates contribute or the decision is a permutation / rescaling of another one; the (decision x configuration) product "
         "of oracle (iv) runs on every 3rd decision (quick) / on all decisions, strided to <=300 per encoding for the large cross "
-        "spaces (thorough), oracles (i)-(iii) on every decision; distinct by digest of "
+        "spaces (thorough), oracles (i)-(iii) on every decision; on every problem object additionally: each decision evaluated a "
+        "second time in reverse order (exact repeat), decision / constructor arrays untouched, and a problem pre-loaded with other "
+        "data + evaluated + re-loaded through every public setter must score like a fresh one; matrix layer: "
+        "DenseExpectedMaximumBreedingValueMatrix.from_gmod with nprogeny/nrep as scalars and as per-taxon arrays with unequal "
+        "entries x all row permutations of 2-/3-taxon populations x all generator answers with <=1 (thorough, smallest scope: <=2) "
+        "non-default crossover answers, DenseWeightedGenomicEstimatedBreedingValueMatrix.from_algmod; distinct by digest of "
         "(class, fixture, mode, decision)")
 ASSUME = ["mc/compat.py restores removed numpy names only",
           "numpy.linalg.cholesky / float arithmetic are correct (the kinship factor handed to directly constructed problems is "
@@ -38,6 +43,8 @@ ASSUME = ["mc/compat.py restores removed numpy names only",
           "progeny variance matrices (property C12), coancestry formulas (C13), mate() (C01), gebv() (C04) and the haplotype "
           "binning helpers (C18) are other properties' subjects: UC uses the variance factory's own output, EMBV the pedigree "
           "model of C01, block designs are restricted to unambiguous ones (no marker on an inner bin boundary)",
+          "the EMBV matrix factory simulates taxon by taxon, replicate by replicate (the documented loop): its gamete draws are "
+          "attributed to (taxon, replicate) in that order",
           "mean expected heterozygosity is taken in the library's documented form -(1-||Cc||_2) (DESIGN C05), not 1-c'Kc",
           "a subset decision may list a member twice (the subset sampler has replace=True as an option); such decisions are "
           "reported under their own ':repeated-members' signatures",
@@ -103,6 +110,9 @@ def shards(tier, seed):
     ns = (3, 4) if Tt else (3,)
     variants = (0, 1, 2) if Tt else (0, 1)
     out = [("discover",)]
+    for n in (2, 3):
+        for v in variants:
+            out.append(("matrix", n, v))
     for f in FM.FAMILIES:
         for n in ns:
             for v in variants:
@@ -200,7 +210,7 @@ def jx(x):
 
 # ----------------------------------------------------------------------------------------------------------
 # oracle (i): latent = definition
-def check_latent(ctx, fam, d, L, clsname, prob, enc, x, tag, case):
+def check_latent(ctx, fam, d, L, clsname, prob, enc, x, tag, case, rec=None):
     xa = FX.to_array(enc, x)
     lat = prob.latentfn(xa)
     ctx.transitions += 1
@@ -212,6 +222,8 @@ def check_latent(ctx, fam, d, L, clsname, prob, enc, x, tag, case):
     else:
         ref = fam.ref(d, c=R.contributions(enc, x, d["N"]))
     ll = lat.tolist()
+    if rec is not None:
+        rec[(enc, x)] = ll
     if getattr(prob, "nlatent", L) != L:
         # outside the property's words (it speaks about the latent vector, not its advertised size): reported, not judged
         ctx.flag(f"observation:nlatent={prob.nlatent}-but-latent-vector-has-{L}-components:{clsname}")
@@ -219,6 +231,78 @@ def check_latent(ctx, fam, d, L, clsname, prob, enc, x, tag, case):
     require(near(ll, ref), P + "definition" + suffix,
             lambda: f"{enc} decision {jx(x)}: latentfn = {ll}, definition from the data = {ref}", case)
     return ll
+
+
+KW2ATTR = {"wgebv": "gwgebv"}
+
+
+def other_data(name, v):
+    """A different, still valid value of the same shape for data attribute `name` (used to pre-load a problem before
+    its public setters are used to install the real data)."""
+    if not isinstance(v, numpy.ndarray):
+        return v
+    if name == "C":
+        return numpy.triu(numpy.ones_like(v)) + 0.0
+    if name == "tfreq":
+        return 1.0 - v[::-1]
+    if v.dtype.kind == "f":
+        return v[::-1] * 0.5 + 1.0
+    return v[::-1].copy()
+
+
+def identical(a, b):
+    return len(a) == len(b) and all(u == v or (u != u and v != v) for u, v in zip(a, b))
+
+
+def check_history(ctx, fam, U, enc, cn, k, prob, decs, latents, case, focus):
+    """(a) a second evaluation of every decision, in reverse order on the same object, repeats the first one exactly and
+    leaves the decision array untouched; (b) a fresh problem leaves the arrays it was constructed from untouched;
+    (c) a problem pre-loaded with other data, evaluated, and then given the real data through every public setter scores
+    every decision exactly like a freshly constructed problem."""
+    P = definer(prob, "latentfn") + ".latentfn:"
+    todo = [(x, latents[(enc, x)]) for _, x, _ in decs if (enc, x) in latents]
+    if focus and focus.get("xs") is not None:
+        todo = [(x, l) for x, l in todo if jx(x) in focus["xs"]]
+    if not todo:
+        return
+    for x, lat in reversed(todo):
+        xa = FX.to_array(enc, x)
+        x0 = xa.copy()
+        l2 = prob.latentfn(xa).tolist()
+        ctx.transitions += 1
+        c2 = dict(case, x=jx(x), xs=[jx(x)])
+        require(identical(l2, lat), P + "history-dependence",
+                f"second evaluation of {jx(x)} on the same problem gives {l2}, the first gave {lat}", c2)
+        require(same(xa, x0) and xa.dtype == x0.dtype, P + "input-mutated:x", f"latentfn changed its argument {x0.tolist()} -> {xa.tolist()}", c2)
+    ctx.count("layer:history", len(todo))
+    # (b) + (c)
+    kw = fam.ctor_kwargs(U.d, enc)
+    snap = {nm: (v.copy() if isinstance(v, numpy.ndarray) else v) for nm, v in kw.items()}
+    ekw = eval_kwargs(DEFAULT_CFG, U.L, U.fx.wts)[0]
+    fresh = U.cls(enc)(**kw, **space_kwargs(enc, U.N, k), **ekw)
+    for x, lat in todo:
+        xa = FX.to_array(enc, x)
+        fresh.latentfn(xa)
+        fresh.evalfn(xa)
+    ctx.transitions += 1 + 2 * len(todo)
+    for nm, v in kw.items():
+        ok = same(v, snap[nm]) if isinstance(v, numpy.ndarray) else v == snap[nm]
+        require(ok, f"{cn}:input-mutated:{nm}", f"constructing / evaluating the problem changed the array passed as '{nm}'", case)
+    kwA = {nm: other_data(nm, v) for nm, v in kw.items()}
+    pre = U.cls(enc)(**kwA, **space_kwargs(enc, U.N, k), **ekw)
+    for x, lat in todo:
+        pre.latentfn(FX.to_array(enc, x))
+    for nm, v in kw.items():
+        setattr(pre, KW2ATTR.get(nm, nm), v)
+    ctx.transitions += 1 + len(todo) + len(kw)
+    for x, lat in todo:
+        l3 = pre.latentfn(FX.to_array(enc, x)).tolist()
+        ctx.transitions += 1
+        require(identical(l3, lat), P + "stale-after-setter",
+                f"problem pre-loaded with other data, then given {sorted(kw)} through the public setters: latentfn({jx(x)}) = {l3}, "
+                f"a freshly constructed problem gives {lat}", dict(case, x=jx(x), xs=[jx(x)]))
+    ctx.count("layer:set-then-query", len(todo))
+    ctx.evaluations += 2 * len(todo)
 
 
 def agree_sig(fam, a, b):
@@ -245,6 +329,7 @@ def run_ctor(ctx, fname, n, variant, oi, part, focus=None):
     encs = [e for e in FM.ENCS if e in fam.classes]
     groups = {}        # contribution vector / member multiset -> [(enc, x, latent, tag, class)]
     latents = {}
+    liblat = {}      # what the library returned on the first evaluation (whether or not it matches the definition)
     ctx.bounds.update({"n_taxa_max": max(n, ctx.bounds.get("n_taxa_max", 0)), "markers": FX.M, "traits": FX.T, "subset_kmax": 3,
                        "integer_sum_max": 4, "real_grid": "0,1/4,1/2,1 x {1,1/2,3}", "real_support_max_when_N>4": 3,
                        "eval_product_decisions": "quick: every 3rd decision; thorough: all, strided to <=300 per encoding"})
@@ -266,12 +351,12 @@ def run_ctor(ctx, fname, n, variant, oi, part, focus=None):
                     continue
                 if focus and focus.get("xs") is not None and jx(x) not in focus["xs"]:
                     continue
-                if focus and focus.get("stage") not in (None, "latent", "agree"):
+                if focus and focus.get("stage") not in (None, "latent", "agree", "history"):
                     continue
                 case = dict(base, cls=cn, enc=enc, k=k, x=jx(x), stage="latent")
                 ctx.evaluations += 1
                 got = []
-                ok = ctx.guard(lambda: got.append(check_latent(ctx, fam, U.d, U.L, cn, probs[k], enc, x, tag, case)),
+                ok = ctx.guard(lambda: got.append(check_latent(ctx, fam, U.d, U.L, cn, probs[k], enc, x, tag, case, rec=liblat)),
                                case=case, sig_prefix=definer(probs[k], "latentfn") + ".latentfn:")
                 key = digest((cn, fx.key(), "ctor", oi, enc, x))
                 ctx.state(key)
@@ -294,6 +379,12 @@ def run_ctor(ctx, fname, n, variant, oi, part, focus=None):
                     ctx.nontriv(key)
                 if ctx.evaluations % 997 == 20 + (len(fname) * 37 + oi * 11) % 200:
                     ctx.sample(dict(case, latent=lat))
+            # ---- histories on one problem object: evaluate twice, inputs untouched, set-then-query
+            if not focus or focus.get("stage") in (None, "history"):
+                for k in sorted(probs):
+                    ck = dict(base, cls=cn, enc=enc, k=k, stage="history")
+                    ctx.guard(lambda: check_history(ctx, fam, U, enc, cn, k, probs[k], [d for d in decs if d[0] == k], liblat, ck, focus),
+                              case=ck, sig_prefix=definer(probs[k], "latentfn") + ".latentfn:history:")
     # ---- (ii)/(iii): every encoding of the same contributions gives the same latent vector
     if part == 0 or (focus and focus.get("stage") == "agree"):
         for gk, ent in sorted(groups.items(), key=lambda kv: repr(kv[0])):
@@ -375,8 +466,10 @@ def check_eval(ctx, cn, prob, spec, enc, k, xs, case, focus):
         if focus and focus.get("xs") is not None and jx(x) not in focus["xs"]:
             continue
         xa = FX.to_array(enc, x)
+        x0 = xa.copy()
         lat = prob.latentfn(xa)
         res = prob.evalfn(xa)
+        require(same(xa, x0), ce + ".evalfn:input-mutated:x", f"evalfn changed its argument {x0.tolist()} -> {xa.tolist()}", dict(case, x=jx(x), xs=[jx(x)]))
         ctx.transitions += 2
         ctx.evaluations += 1
         ctx.count("layer:evalfn")
@@ -648,6 +741,154 @@ def guarded(ctx, run, ch, case, cn):
 
 
 # ----------------------------------------------------------------------------------------------------------
+# the two value-matrix factories among the property's anchors (model/embvmat, model/wgebvmat)
+COUNT_FORMS = {2: [1, 2, [1, 2], [2, 1]], 3: [1, 2, [2, 1, 2], [1, 2, 1], [2, 1, 1]]}
+
+
+def run_matrix(ctx, n, variant, focus=None):
+    """DenseExpectedMaximumBreedingValueMatrix.from_gmod with nprogeny / nrep given as scalars AND as per-taxon arrays
+    with unequal entries, under the scripted generator (every crossover answer of every DH gamete is a choice point;
+    all executions with <= 1 non-default answer, <= 2 at the smallest scope in the thorough tier).  Oracle: EMBV of
+    taxon i = mean over ITS OWN nrep[i] replicates of the best of its nprogeny[i] DH progeny GEBVs, progeny from the
+    pedigree model (mc.ref.mating.meiosis) under the same answers; labels in population order; inputs untouched.
+    DenseWeightedGenomicEstimatedBreedingValueMatrix.from_algmod: values in the population's taxon order."""
+    from ..env import ScriptedRandomState, MeiosisHandler
+    from ..explore import explore
+    from ..ref import mating as RM
+    from ..fix import snapshot, snap_equal
+    from pybrops.model.embvmat.DenseExpectedMaximumBreedingValueMatrix import DenseExpectedMaximumBreedingValueMatrix as EM
+    emod = importlib.import_module("pybrops.model.embvmat.DenseExpectedMaximumBreedingValueMatrix")
+    tier = ctx.tier
+    perms = list(itertools.permutations(range(n)))
+    if n == 3 and tier == "quick":
+        perms = [perms[0], perms[3], perms[5]]
+    forms = COUNT_FORMS[n]
+    base = dict(spec=["matrix", n, variant], stage="matrix")
+    for perm in perms:
+        fx = Fx(n, variant, ctx.seed, perm=perm)
+        pg, gp = fx.pgmat(), fx.gpmod()
+        geno = A(fx.phased, "int8")
+        xop = [0.5 if j == 0 else 0.2 for c in fx.chrom for j in range(c)]
+        own = R.gebv(fx.counts, fx.u, fx.beta)
+        homoz = [all(fx.phased[0][i][l] == fx.phased[1][i][l] for l in range(FX.M)) for i in range(n)]
+        for fi, (npg, nrp) in enumerate(itertools.product(forms, forms)):
+            if focus and (focus.get("fi") not in (None, fi) or (focus.get("perm") is not None and list(perm) != list(focus["perm"]))):
+                continue
+            npl = [npg] * n if isinstance(npg, int) else list(npg)
+            nrl = [nrp] * n if isinstance(nrp, int) else list(nrp)
+            cells = sum(a * b for a, b in zip(npl, nrl)) * FX.M
+            bound = 2 if (tier == "thorough" and cells <= 16) else 1
+            if not isinstance(npg, int) or not isinstance(nrp, int):
+                ctx.flag("matrix:per-taxon-array-counts")
+            if any(b < max(nrl[:i + 1]) for i, b in enumerate(nrl)):
+                ctx.flag("matrix:nrep-decreasing-along-taxa")
+            c0 = dict(base, fixture=fx.key(), perm=list(perm), fi=fi, nprogeny=npg, nrep=nrp)
+
+            def run(ch):
+                h = MeiosisHandler(ch, xop, mode="full")
+                before = snapshot(pg)
+                old = emod.global_prng
+                emod.global_prng = ScriptedRandomState(h)
+                try:
+                    out = EM.from_gmod(gmod=gp, pgmat=pg,
+                                       nprogeny=npg if isinstance(npg, int) else A(npg, "int64"),
+                                       nrep=nrp if isinstance(nrp, int) else A(nrp, "int64"))
+                finally:
+                    emod.global_prng = old
+                return out, h, before
+
+            def guarded_run(ch):
+                res = []
+                ok = ctx.guard(lambda: res.append(run(ch)), case=dict(c0, answers=list(ch.prefix)),
+                               sig_prefix="DenseExpectedMaximumBreedingValueMatrix.from_gmod:")
+                return res[0] if ok else None
+
+            for ch, res in explore(guarded_run, bound=bound, max_exec=4000):
+                ctx.evaluations += 1
+                ctx.transitions += 1
+                ctx.count("layer:matrix-factory")
+                ctx.count("matrix:DenseExpectedMaximumBreedingValueMatrix.from_gmod")
+                if res is None:
+                    break
+                out, h, before = res
+                c1 = dict(c0, answers=[int(v) for v in ch.taken])
+
+                def oracle():
+                    P = "DenseExpectedMaximumBreedingValueMatrix.from_gmod:"
+                    want = [(npl[i], FX.M) for i in range(n) for _ in range(nrl[i])]
+                    got_shapes = [tuple(d[0]) for d in h.draws]
+                    require(got_shapes == want, P + "simulations",
+                            f"gamete draws {got_shapes}; nrep[i] replicates of nprogeny[i] DH progeny per taxon need {want}", c1)
+                    it = iter(h.draws)
+                    exp = []
+                    for i in range(n):
+                        reps = []
+                        for _ in range(nrl[i]):
+                            shp, vals, xo = next(it)
+                            gam = RM.meiosis(geno, [i] * npl[i], xo)
+                            reps.append([[2 * int(v) for v in row] for row in gam.tolist()])
+                        exp.append(R.embv_of_taxon(reps, fx.u, fx.beta))
+                    val = numpy.asarray(out.unscale(), dtype=float)
+                    require(val.shape == (n, FX.T) and near(val.ravel().tolist(), [v for r in exp for v in r]), P + "data:embv",
+                            lambda: f"EMBV (unscaled) = {val.tolist()} with nprogeny={npg}, nrep={nrp}; mean over each taxon's own "
+                                    f"replicates of its best DH progeny GEBV = {exp}", c1)
+                    for i in range(n):
+                        if homoz[i]:
+                            require(near(val[i].tolist(), own[i]), P + "data:embv:inbred",
+                                    f"taxon {i} is completely homozygous: all its DH progeny equal it, EMBV must be its GEBV {own[i]}, "
+                                    f"got {val[i].tolist()}", c1)
+                            ctx.flag("matrix:inbred-taxon")
+                    require(same(out.taxa, numpy.array(fx.taxa, dtype=object)) and same(out.taxa_grp, A(fx.grp, "int64")), P + "data:labels",
+                            f"taxa {out.taxa} / taxa_grp {out.taxa_grp} are not the population's {fx.taxa} / {fx.grp}", c1)
+                    okb, fld = snap_equal(before, snapshot(pg))
+                    require(okb, P + "input-mutated:" + str(fld), f"from_gmod changed field {fld} of the genotype matrix", c1)
+                    return exp
+                got = []
+                if ctx.guard(lambda: got.append(oracle()), case=c1, sig_prefix="DenseExpectedMaximumBreedingValueMatrix.from_gmod:"):
+                    ctx.traces += 1
+                    ctx.outcome(digest(("EMBVmat", got[0])))
+                key = digest(("EMBVmat", fx.key(), npg, nrp, tuple(ch.taken)))
+                ctx.state(key)
+                if ch.deviations or len(set(nrl)) > 1 or len(set(npl)) > 1:
+                    ctx.nontriv(key)
+            if explore.capped:
+                ctx.capped.append("EMBV matrix answer enumeration cap (4000 executions)")
+        # ---- weighted GEBV matrix
+        if focus and focus.get("fi") is not None:
+            continue
+        from pybrops.model.wgebvmat.DenseWeightedGenomicEstimatedBreedingValueMatrix import DenseWeightedGenomicEstimatedBreedingValueMatrix as WM
+        for phased in (True, False):
+            for u in (fx.u, fx.u_nz):
+                fa = R.fav_allele_freq(fx.counts, 2, u)
+                c2 = dict(base, fixture=fx.key(), perm=list(perm), phased=phased, stage="matrix-wgebv")
+                if any(f == 1 for r in fa for f in r):
+                    ctx.count("skipped-invalid:favourable-allele-fixed")      # weight is 0/0 there: outside the criterion's domain
+                    continue
+                ctx.evaluations += 1
+                ctx.transitions += 1
+                ctx.count("layer:matrix-factory")
+                ctx.count("matrix:DenseWeightedGenomicEstimatedBreedingValueMatrix.from_algmod")
+
+                def oracle2():
+                    P = "DenseWeightedGenomicEstimatedBreedingValueMatrix.from_algmod:"
+                    gm = fx.pgmat() if phased else fx.gmat()
+                    before = snapshot(gm)
+                    out = WM.from_algmod(algmod=fx.gpmod(u), gmat=gm)
+                    exp = R.wgebv_arcsine(fx.counts, u, fa)
+                    val = numpy.asarray(out.unscale(), dtype=float)
+                    require(val.shape == (n, FX.T) and near(val.ravel().tolist(), [v for r in exp for v in r]), P + "data:wgebv",
+                            lambda: f"wGEBV (unscaled) = {val.tolist()}, definition in the population's taxon order = {exp}", c2)
+                    require(same(out.taxa, numpy.array(fx.taxa, dtype=object)) and same(out.taxa_grp, A(fx.grp, "int64")), P + "data:labels",
+                            f"taxa {out.taxa} / taxa_grp {out.taxa_grp} are not the population's", c2)
+                    okb, fld = snap_equal(before, snapshot(gm))
+                    require(okb, P + "input-mutated:" + str(fld), f"from_algmod changed field {fld} of the genotype matrix", c2)
+                if ctx.guard(oracle2, case=c2, sig_prefix="DenseWeightedGenomicEstimatedBreedingValueMatrix.from_algmod:"):
+                    ctx.traces += 1
+                ctx.state(digest(("WGEBVmat", fx.key(), phased, u)))
+
+
+
+# ----------------------------------------------------------------------------------------------------------
 def run_discover(ctx):
     found, failed = discover()
     table = table_classes()
@@ -681,6 +922,8 @@ def run_shard(spec, ctx, focus=None):
         run_ctor(ctx, *spec[1:], focus=focus)
     elif kind == "factory":
         run_factory(ctx, *spec[1:], focus=focus)
+    elif kind == "matrix":
+        run_matrix(ctx, *spec[1:], focus=focus)
     else:
         raise KeyError(kind)
 
@@ -693,7 +936,7 @@ def finalize(ctx, tier, seed):
         assert c.get("cls:" + cn, 0) > 0, f"class never exercised: {cn}"
     for enc in FM.ENCS:
         assert c.get("enc:" + enc, 0) > 0, enc
-    for lay in ("definition", "agreement", "evalfn", "evaluate", "factory", "factory-latent"):
+    for lay in ("definition", "agreement", "evalfn", "evaluate", "factory", "factory-latent", "history", "set-then-query", "matrix-factory"):
         assert c.get("layer:" + lay, 0) > 0, lay
     for k in ("perm", "rescale", "encoding"):
         assert c.get("agree:" + k, 0) > 0, k
@@ -712,6 +955,10 @@ def finalize(ctx, tier, seed):
         for enc in fam.classes:
             for fac, _ in fam.factories(enc, tier):
                 assert c.get(f"factory:{fam.name}.{fac}", 0) > 0, (fam.name, fac)
+    for fl in ("matrix:per-taxon-array-counts", "matrix:nrep-decreasing-along-taxa", "matrix:inbred-taxon"):
+        assert fl in f, fl
+    for m_ in ("DenseExpectedMaximumBreedingValueMatrix.from_gmod", "DenseWeightedGenomicEstimatedBreedingValueMatrix.from_algmod"):
+        assert c.get("matrix:" + m_, 0) > 0, m_
     assert len(ctx.outcomes) > 200, len(ctx.outcomes)
     assert len(ctx.nontrivial) > 200, len(ctx.nontrivial)
 
@@ -719,7 +966,7 @@ def finalize(ctx, tier, seed):
 def replay(case, ctx):
     spec = tuple(case["spec"])
     st = case.get("stage")
-    focus = {"stage": {"latent": "latent", "agree": "agree", "eval": "eval", "construct": "latent"}.get(st, st)}
+    focus = {"stage": {"latent": "latent", "agree": "agree", "eval": "eval", "construct": "latent", "history": "history"}.get(st, st)}
     for k in ("enc", "enc2", "xs", "cfg", "k", "fi", "perm"):
         if k in case:
             focus[k] = case[k]
